@@ -341,6 +341,148 @@ func TestVerif_C01_Session(t *testing.T) {
 	mon.Parallel(n+nbig, func(w, i int) { verifC01Session(m, i, i >= n) })
 }
 
+// Long sessions: what a connection that stays up for hours sees — per-connection and per-chunk-stream state after tens of
+// thousands of messages (counters that wrap at 2^8/2^16, tables that fill, accumulated deltas), and (thorough) more than
+// 2^32 bytes through one connection.
+func TestVerif_C01_LongSession(t *testing.T) {
+	m := mon.New("C01", "longsession")
+	defer m.Finish(t)
+	m.Rule("longsession: single connections carrying 70 000 (quick, 2 sessions) / 300 000 (thorough, 6 sessions) small messages in one direction on 1-5 chunk streams, " +
+		"timestamps advancing through 2^24 and 2^31-1, a Set Chunk Size every few thousand messages, read back in batches of 1..500; thorough adds one session " +
+		"moving more than 2^32 payload bytes (16 MiB messages at chunk size 2^24); distinct = message type x length class x chunk-size class per 10 000 messages")
+	nsess := m.N(2, 6)
+	per := m.N(70000, 300000)
+	m.Require("messages_read_back", int64(nsess*per))
+	mon.Parallel(nsess, func(w, i int) {
+		r := m.Rand("long", i)
+		seg := vnet.PickSeg(r)
+		if seg.Name() == "1byte" {
+			seg = vnet.SegRandom(r.Split(), 4096)
+		}
+		ca, cb, ab, _ := vnet.Pair(seg, vnet.SegWhole())
+		pa, pb := NewProtocol(ca), NewProtocol(cb)
+		rep := map[string]interface{}{"case": i, "seg": seg.Name()}
+		m.Case()
+		m.Guard("rtmp.longsession", nil, func() {
+			ncs := r.Range(1, 5)
+			cids := make([]uint32, ncs)
+			for k := range cids {
+				cids[k] = uint32(r.Range(2, 63))
+			}
+			ts := make([]uint64, ncs)
+			chunk := uint32(128)
+			var pending []verifMsg
+			drain := func(at int) bool {
+				for k, want := range pending {
+					got, err := pb.ReadMessage()
+					if err != nil {
+						m.Violationf("c01:read-error:long-session", rep, "message %d of the session (%v): %v", at-len(pending)+k, want, err)
+						return false
+					}
+					if ok, why := verifSame(want, verifFromLib(got)); !ok {
+						m.Violationf("c01:message-differs:long-session", rep, "message %d of the session: wrote %v read %v: %s", at-len(pending)+k, want, verifFromLib(got), why)
+						return false
+					}
+					m.Count("messages_read_back", 1)
+				}
+				m.Cases(len(pending))
+				pending = pending[:0]
+				return true
+			}
+			batch := r.Range(1, 500)
+			for n := 0; n < per; n++ {
+				if n > 0 && n%r.Range(2000, 9000) == 0 {
+					v := verifGenChunkSize(r)
+					pkt := NewSetChunkSize()
+					pkt.ChunkSize = v
+					if err := pa.WritePacket(pkt, 0); err != nil {
+						m.Violationf("c01:write-error:long-session", rep, "SetChunkSize: %v", err)
+						return
+					}
+					b := make([]byte, 4)
+					binary.BigEndian.PutUint32(b, v)
+					pending = append(pending, verifMsg{Type: 1, Cid: 2, Payload: b})
+					chunk = v
+				}
+				k := r.Intn(ncs)
+				// timestamps advance; a few sessions jump across 2^24 and towards 2^31-1
+				switch {
+				case n == per/3:
+					ts[k] = 0xFFFFF0
+				case n == 2*per/3:
+					ts[k] = 0x7FFFFF00
+				default:
+					ts[k] += uint64(r.Intn(40))
+				}
+				if ts[k] > 0x7FFFFFFF {
+					ts[k] = 0x7FFFFFFF
+				}
+				vm := verifMsg{Type: uint8(r.Pick(8, 9, 18, 20, 15)), StreamID: uint32(r.Pick(0, 1, 1, 7)), Timestamp: ts[k], Cid: cids[k], Payload: r.Shaped(r.Pick(1, 2, 7, 40, 127, 128, 129, 300))} // payloads of at least one byte: the statement's domain (DESIGN 4.1)
+				if err := pa.WriteMessage(verifToLib(vm)); err != nil {
+					m.Violationf("c01:write-error:long-session", rep, "message %d: %v", n, err)
+					return
+				}
+				pending = append(pending, vm)
+				if len(pending) >= batch {
+					if !drain(n + 1) {
+						return
+					}
+					batch = r.Range(1, 500)
+				}
+				if n%10000 == 0 {
+					m.Classf("long/%dk/t%d/len:%s/cs:%d", n/10000, vm.Type, verifLenClass(len(vm.Payload), chunk), csClass(chunk))
+				}
+			}
+			if !drain(per) {
+				return
+			}
+			if ab.Len() != 0 || ab.EmptyReads != 0 {
+				m.Violationf("c01:surplus-bytes:long-session", rep, "%d bytes left, %d reads past the written data", ab.Len(), ab.EmptyReads)
+			}
+			m.Count("long_sessions_completed", 1)
+		})
+	})
+	if !m.Quick() {
+		// more than 2^32 payload bytes through one connection
+		m.Guard("rtmp.longsession.4GiB", nil, func() {
+			r := m.Rand("long4g", 0)
+			ca, cb, ab, _ := vnet.Pair(vnet.SegWhole(), vnet.SegWhole())
+			pa, pb := NewProtocol(ca), NewProtocol(cb)
+			pkt := NewSetChunkSize()
+			pkt.ChunkSize = 1 << 24
+			pa.WritePacket(pkt, 0)
+			if _, err := pb.ReadMessage(); err != nil {
+				m.Violationf("c01:read-error:long-session", nil, "SetChunkSize: %v", err)
+				return
+			}
+			payload := r.Bytes(1<<24 - 1)
+			var total uint64
+			for n := 0; total < 1<<32+1<<26; n++ {
+				payload[n%len(payload)] ^= byte(n + 1)
+				vm := verifMsg{Type: 9, StreamID: 1, Timestamp: uint64(n * 40), Cid: 6, Payload: payload}
+				if err := pa.WriteMessage(verifToLib(vm)); err != nil {
+					m.Violationf("c01:write-error:long-session", nil, "after %d bytes: %v", total, err)
+					return
+				}
+				got, err := pb.ReadMessage()
+				if err != nil {
+					m.Violationf("c01:read-error:long-session:4GiB", nil, "after %d payload bytes: %v", total, err)
+					return
+				}
+				if ok, why := verifSame(vm, verifFromLib(got)); !ok {
+					m.Violationf("c01:message-differs:long-session:4GiB", nil, "after %d payload bytes: %s", total, why)
+					return
+				}
+				total += uint64(len(payload))
+				m.Case()
+				ab.Written = 0
+			}
+			m.Count("sessions_beyond_4GiB", 1)
+			m.Note("bytes_through_one_connection", total)
+		})
+	}
+}
+
 // Concurrent variant: both directions at once on blocking pipes, under the race detector.
 func TestVerif_C01_Concurrent(t *testing.T) {
 	m := mon.New("C01", "concurrent")
